@@ -37,6 +37,9 @@ type faultReader struct {
 	mu     sync.Mutex
 	d      *gen.DRBG
 	failAt int
+	// chunk > 0: a Read delivers at most chunk bytes (a short read, which
+	// the io.Reader contract allows at any time).
+	chunk  int
 	reads  int
 	failed bool
 	log    []readRec
@@ -55,6 +58,9 @@ func (f *faultReader) Read(p []byte) (int, error) {
 		f.d.Bytes(len(p))
 		f.log = append(f.log, readRec{N: -len(p)})
 		return 0, errInjected
+	}
+	if f.chunk > 0 && len(p) > f.chunk {
+		p = p[:f.chunk]
 	}
 	f.d.Read(p)
 	rec := readRec{N: len(p)}
@@ -98,6 +104,19 @@ func (f *Fault) index(n int) int {
 		k = 1
 	}
 	return k
+}
+
+// shortChunks are the per-Read limits of a short-reading random source: below,
+// at and above the label size, and below a plausible buffer size.
+var shortChunks = []int{1, 3, 7, 8, 15, 16, 17, 31, 100, 4095}
+
+// drawChunk draws a short-read limit with probability pct/100 (0 = the source
+// always fills the buffer).
+func drawChunk(t *rapid.T, pct int) int {
+	if gen.Uniform(t, 100, "shortreads") >= pct {
+		return 0
+	}
+	return shortChunks[gen.Uniform(t, len(shortChunks), "chunk")]
 }
 
 // drawFault draws a fault with probability pct/100.
@@ -337,6 +356,8 @@ func wideClasses(n0, n1 int) []string {
 		cl = append(cl, "wide-split=other")
 	}
 	switch {
+	case total > 65000:
+		cl = append(cl, "wide-size>65000")
 	case total > 3000:
 		cl = append(cl, "wide-size>3000")
 	case total > 1500:
